@@ -247,7 +247,7 @@ func (g *docgen) doctype() {
 		}
 		var sb strings.Builder
 		for k := rapid.IntRange(0, 3).Draw(t, label+"n"); k > 0; k-- {
-			sb.WriteString(rapid.SampledFrom([]string{"x", "http://a/b.dtd", ">", "]", "[", "]>", other, " ", "-//W3C//DTD"}).Draw(t, label))
+			sb.WriteString(rapid.SampledFrom([]string{"x", "http://a/b.dtd", ">", "]", "[", "]>", other, " ", "-//W3C//DTD", "<!--", "-->", "<!-- c -->", "<", "--", "<!", "<?", "?>"}).Draw(t, label))
 		}
 		return q + sb.String() + q
 	}
@@ -349,7 +349,7 @@ func lex(t fataler, src []byte) []tok {
 }
 
 func TestProp_Document(t *testing.T) {
-	ev.Describe("document", "well-formed XML documents from a grammar: optional XML declaration (both quote kinds), processing instructions with pseudo-attributes/words, DOCTYPE with SYSTEM/PUBLIC literals in either quote kind containing > ] [ and an internal subset with ENTITY/ELEMENT/ATTLIST declarations and comments containing ] >, comments without --, CDATA with ]] ]> look-alikes, elements nested to depth 5 with namespaced names, attributes in ' or \" containing the other quote, >, />, ?> and whitespace to normalise, empty-element tags, character data, whitespace variations inside tags; oracle: by-construction token list (type, token bytes, Text(), AttrVal()) and differential with encoding/xml.Decoder.RawToken (element names, attribute names, attribute values modulo tab/newline normalisation, PI targets, in document order); non-trivial = >= 3 constructs incl. an element with >= 1 attribute")
+	ev.Describe("document", "well-formed XML documents from a grammar: optional XML declaration (both quote kinds), processing instructions with pseudo-attributes/words, DOCTYPE with SYSTEM/PUBLIC/entity literals in either quote kind containing > ] [ <!-- --> < <? and an internal subset with ENTITY/ELEMENT/ATTLIST declarations and comments containing ] >, comments without --, CDATA with ]] ]> look-alikes, elements nested to depth 5 with namespaced names, attributes in ' or \" containing the other quote, >, />, ?> and whitespace to normalise, empty-element tags, character data, whitespace variations inside tags; oracle: by-construction token list (type, token bytes, Text(), AttrVal()) and differential with encoding/xml.Decoder.RawToken (element names, attribute names, attribute values modulo tab/newline normalisation, PI targets, in document order); non-trivial = >= 3 constructs incl. an element with >= 1 attribute")
 	ev.Check(t, 15000, func(t *rapid.T) {
 		g := genDoc(t)
 		src := g.rawSource()
